@@ -372,7 +372,7 @@ PROPS["C05"] = {
                      "ciborium, serde_json, bincode, hex: exercised, not modelled"],
     "assumptions": ["inputs are shorter than 2^63 bytes (every Rust slice is)", "dev-profile overflow checks"],
     "goals_not_proved": ["C05_alloc_bound as a quantitative theorem (every allocation <= c*|bytes|+c'): only the loop bound is proved; allocation is measured by the harness",
-                         "C05_legacy_roundtrip (Dec (Enc v) = v): checked by S on real values",
+                         "C05_legacy_roundtrip is proved for the six legacy decoders against hand-assembled legacy layouts (the crate no longer has a legacy ENCODER: every to_bytes writes CBOR); the three envelope theorems keep an explicit routing hypothesis (first byte of a nested payload is not the CBOR version byte: true for blst-compressed keys and for counts < 2^56)",
                          "totality of the CBOR / JSON / bincode / hex paths: not modelled (fuzzed)"],
 }
 
